@@ -1,4 +1,6 @@
 import TsVerif.C05.Model
+import TsVerif.C05.CapQuant
+import TsVerif.C11.Props
 /-!
 # C05 — Query results are exactly the matches the pattern semantics define
 
@@ -20,6 +22,11 @@ that the check compares the real cursor with is exactly the declarative semantic
 * `matchAll_nodup` — `matchAll vt p` has no duplicates ("exactly once"; distinctness is over
   (root, capture assignment): solutions that differ only in uncaptured nodes are one binding).
 * `mem_matchItem_iff` etc. — the underlying equivalences, by mutual structural induction.
+* `capture_count_within_quantifier` — in every `Sat` binding (hence in every enumerated match) a
+  capture occurs a number of times allowed by `capQItem`, the capture quantifier computed with the
+  tables GENERATED from query.c (`quantifier_add/join/mul`; `count_SatItem` etc. by mutual induction
+  on the pattern, `count_One/Many/Seq` for sibling sequences; uses C11's `quantifier_*_sound`).
+  The implementation's `Query::capture_quantifiers` is compared with `capQItem` on every case.
 
 Fragment: named nodes, anonymous literals, `(_)`, `_`, `(MISSING …)`, `(ERROR …)`, fields, negated
 fields, children in order, anchors (leading / between / trailing), alternations, quantifiers
@@ -227,5 +234,157 @@ example : SatItem exPat exTree [("x", 3)] :=
   (mem_matchItem_iff exPat exTree _).1 (by decide)
 example : ∃ n, n ∈ nodesOf exTree ∧ n.info.id = 0 ∧ SatItem exPat n [("x", 3)] :=
   matchAll_sound exTree exPat 0 _ (by decide)
+
+
+/-! ## Capture quantifiers -/
+section capq
+open TsGen TsVerif.C11
+
+theorem countCap_append (c : String) (a b : Binding) : countCap c (a ++ b) = countCap c a + countCap c b := by
+  simp [countCap]
+
+theorem countCap_caps (c : String) (caps : List String) (id : Nat) :
+    countCap c (caps.map fun x => (x, id)) = countName c caps := by
+  induction caps with
+  | nil => rfl
+  | cons x t ih =>
+    simp only [List.map_cons, countCap, countName, List.filter_cons] at *
+    by_cases h : x = c <;> simp [h, ih]
+
+theorem occ_natQ (k : Nat) : occ (natQ k) k := by
+  match k with
+  | 0 => simp [natQ, occ]
+  | 1 => simp [natQ, occ]
+  | k + 2 => simp [natQ, occ]
+
+/-- zero repetitions are always allowed by `? *`. -/
+theorem occ_mul_zero (q : TSQuantifier) :
+    occ (quantifier_mul .TSQuantifierZeroOrOne q) 0 ∧ occ (quantifier_mul .TSQuantifierZeroOrMore q) 0 := by
+  cases q <;> simp [occ, quantifier_mul]
+
+theorem occ_mul_one (q : TSQuantifier) (m : Nat) (h : occ q m) :
+    occ (quantifier_mul .TSQuantifierOne q) m ∧ occ (quantifier_mul .TSQuantifierZeroOrOne q) m ∧
+    occ (quantifier_mul .TSQuantifierOneOrMore q) m ∧ occ (quantifier_mul .TSQuantifierZeroOrMore q) m := by
+  cases q <;> simp [occ, quantifier_mul] at * <;> omega
+
+/-- one more repetition stays inside the `+` / `*` quantifier. -/
+theorem occ_mul_more (q : TSQuantifier) (m k : Nat) (h : occ q m) :
+    (occ (quantifier_mul .TSQuantifierOneOrMore q) k → occ (quantifier_mul .TSQuantifierOneOrMore q) (m + k)) ∧
+    (occ (quantifier_mul .TSQuantifierZeroOrMore q) k → occ (quantifier_mul .TSQuantifierZeroOrMore q) (m + k)) := by
+  cases q <;> simp [occ, quantifier_mul] at * <;> omega
+
+section seq
+variable {imm : Anchor} {F : VT → Binding → Prop} {G : List VT → Binding → Prop}
+variable (c : String) (qf qg : TSQuantifier)
+
+theorem count_One (hF : ∀ n b, F n b → occ qf (countCap c b)) (hG : ∀ s b, G s b → occ qg (countCap c b))
+    (sibs : List VT) (b : Binding) (h : One imm F G sibs b) :
+    ∃ m n, countCap c b = m + n ∧ occ qf m ∧ occ qg n := by
+  induction h with
+  | take h1 h2 => exact ⟨_, _, countCap_append _ _ _, hF _ _ h1, hG _ _ h2⟩
+  | skip _ _ ih => exact ih
+
+theorem count_Many (hF : ∀ n b, F n b → occ qf (countCap c b)) (hG : ∀ s b, G s b → occ qg (countCap c b))
+    (sibs : List VT) (b : Binding) (h : Many imm F G sibs b) :
+    ∃ m n, countCap c b = m + n ∧ occ (quantifier_mul .TSQuantifierOneOrMore qf) m ∧
+      occ (quantifier_mul .TSQuantifierZeroOrMore qf) m ∧ occ qg n := by
+  induction h with
+  | takeStop h1 h2 =>
+    have := occ_mul_one qf _ (hF _ _ h1)
+    exact ⟨_, _, countCap_append _ _ _, this.2.2.1, this.2.2.2, hG _ _ h2⟩
+  | takeMore h1 _ ih =>
+    obtain ⟨m, n, he, hm1, hm2, hn⟩ := ih
+    have := occ_mul_more qf _ m (hF _ _ h1)
+    refine ⟨countCap c _ + m, n, ?_, this.1 hm1, this.2 hm2, hn⟩
+    rw [countCap_append, he]; omega
+  | skip _ _ ih => exact ih
+
+theorem count_Seq (q : Quant) {G0 G1 : List VT → Binding → Prop}
+    (hF : ∀ n b, F n b → occ qf (countCap c b))
+    (hG0 : ∀ s b, G0 s b → occ qg (countCap c b)) (hG1 : ∀ s b, G1 s b → occ qg (countCap c b))
+    (sibs : List VT) (b : Binding) (h : Seq q imm F G0 G1 sibs b) :
+    occ (quantifier_add (quantifier_mul (qOf q) qf) qg) (countCap c b) := by
+  cases q with
+  | one =>
+    obtain ⟨m, n, he, hm, hn⟩ := count_One c qf qg hF hG1 sibs b h
+    rw [he]; exact quantifier_add_sound _ _ _ _ (occ_mul_one qf m hm).1 hn
+  | opt =>
+    rcases h with h | h
+    · have := quantifier_add_sound _ _ 0 _ (occ_mul_zero qf).1 (hG0 _ _ h)
+      simpa [qOf] using this
+    · obtain ⟨m, n, he, hm, hn⟩ := count_One c qf qg hF hG1 sibs b h
+      rw [he]; exact quantifier_add_sound _ _ _ _ (occ_mul_one qf m hm).2.1 hn
+  | star =>
+    rcases h with h | h
+    · have := quantifier_add_sound _ _ 0 _ (occ_mul_zero qf).2 (hG0 _ _ h)
+      simpa [qOf] using this
+    · obtain ⟨m, n, he, _, hm, hn⟩ := count_Many c qf qg hF hG1 sibs b h
+      rw [he]; exact quantifier_add_sound _ _ _ _ hm hn
+  | plus =>
+    obtain ⟨m, n, he, hm, _, hn⟩ := count_Many c qf qg hF hG1 sibs b h
+    rw [he]; exact quantifier_add_sound _ _ _ _ hm hn
+end seq
+
+mutual
+  theorem count_SatPat (c : String) : ∀ (p : Pat) (n : VT) (b : Binding), SatPat p n b → occ (capQPat c p) (countCap c b)
+    | .node t neg kids last, n, b => by
+      unfold SatPat capQPat
+      intro ⟨_, _, h⟩
+      exact count_SatItems c kids last false false n.kids b h
+    | .alt alts, n, b => by
+      unfold SatPat capQPat
+      intro h
+      obtain ⟨q, hq, ho⟩ := count_SatAlts c alts n b h
+      rw [hq]; exact ho
+  theorem count_SatAlts (c : String) : ∀ (alts : List Item) (n : VT) (b : Binding), SatAlts alts n b →
+      ∃ q, capQAlts c alts = some q ∧ occ q (countCap c b)
+    | [], n, b => by unfold SatAlts; intro h; exact h.elim
+    | it :: rest, n, b => by
+      unfold SatAlts capQAlts
+      intro h
+      cases hr : capQAlts c rest with
+      | none =>
+        refine ⟨_, rfl, ?_⟩
+        rcases h with h | h
+        · exact count_SatItem c it n b h
+        · obtain ⟨q, hq, _⟩ := count_SatAlts c rest n b h
+          rw [hr] at hq; cases hq
+      | some q =>
+        refine ⟨_, rfl, ?_⟩
+        rcases h with h | h
+        · exact quantifier_join_sound _ _ _ (Or.inl (count_SatItem c it n b h))
+        · obtain ⟨q', hq, ho⟩ := count_SatAlts c rest n b h
+          rw [hr] at hq; cases hq
+          exact quantifier_join_sound _ _ _ (Or.inr ho)
+  theorem count_SatItem (c : String) : ∀ (it : Item) (n : VT) (b : Binding), SatItem it n b → occ (capQItem c it) (countCap c b)
+    | .mk imm f p q caps, n, b => by
+      unfold SatItem capQItem
+      intro ⟨_, b', hp, he⟩
+      subst he
+      rw [countCap_append, countCap_caps]
+      exact quantifier_add_sound _ _ _ _ (occ_natQ _) (count_SatPat c p n b' hp)
+  theorem count_SatItems (c : String) : ∀ (items : List Item) (last w any : Bool) (sibs : List VT) (b : Binding),
+      SatItems items last w any sibs b → occ (capQItems c items) (countCap c b)
+    | [], last, w, any, sibs, b => by
+      unfold SatItems capQItems EndOk
+      intro ⟨h, _⟩
+      subst h; simp [countCap, occ]
+    | it :: rest, last, w, any, sibs, b => by
+      unfold SatItems capQItems
+      intro h
+      exact count_Seq c _ _ it.quant (fun n b h => count_SatItem c it n b h)
+        (fun s b h => count_SatItems c rest last true any s b h)
+        (fun s b h => count_SatItems c rest last false true s b h) sibs b h
+end
+
+/-- `capture_count_within_quantifier`: in every match the model enumerates, capture `c` occurs a
+number of times allowed by the quantifier computed with the generated tables. -/
+theorem capture_count_within_quantifier (vt : VT) (p : Item) (c : String) (r : Nat) (b : Binding)
+    (h : (r, b) ∈ matchAll vt p) : occ (capQItem c p) (countCap c b) := by
+  obtain ⟨n, _, _, hs⟩ := matchAll_sound vt p r b h
+  exact count_SatItem c p n b hs
+
+
+end capq
 
 end TsVerif.C05
